@@ -55,7 +55,26 @@ TopSet(nus, m) == {i \in DOMAIN nus : Cardinality({j \in DOMAIN nus : CmpFrac(nu
 BotSet(nus, m) == {i \in DOMAIN nus : Cardinality({j \in DOMAIN nus : CmpFrac(nus[j], nus[i]) < 0}) < m}
 WantedSet(rule, nus, k) ==
     IF rule = 8 THEN TopSet(nus, (k + 1) \div 2) \cup BotSet(nus, k \div 2) ELSE WantedSetPlain(rule, nus, k)
+\* Separation (domain of C04: "spaced by at least ~0.5% of the spectral spread in the rule's key"; 2% is required here so that
+\* borderline cases are skipped rather than judged).  Keys are compared in 2^-16 fixed point; this only filters the domain.
+Fix(f) == (f.num * 65536) \div f.den
+KeyFix(rule, f) == IF rule \in {0, 4} THEN Fix([num |-> Abs(f.num), den |-> Abs(f.den)]) ELSE Fix([num |-> f.num * Sgn(f.den), den |-> Abs(f.den)])
+MaxOf(S) == CHOOSE x \in S : \A y \in S : y <= x
+MinOf(S) == CHOOSE x \in S : \A y \in S : y >= x
+SeparatedSets(keysIn, keysOut, keysAll) ==
+    keysOut = {} \/ keysIn = {} \/
+    LET spread == MaxOf(keysAll) - MinOf(keysAll)
+        gap == MinOf({Abs(a - b) : a \in keysIn, b \in keysOut})
+    IN gap * 50 >= spread
+Separated(rule, nus, k) ==
+    LET S == IF rule = 8 THEN TopSet(nus, (k + 1) \div 2) \cup BotSet(nus, k \div 2) ELSE WantedSetPlain(rule, nus, k)
+        r2 == IF rule = 8 THEN 3 ELSE rule
+        kin == {KeyFix(r2, nus[i]) : i \in S}
+        kout == {KeyFix(r2, nus[i]) : i \in (DOMAIN nus) \ S}
+    IN SeparatedSets(kin, kout, kin \cup kout)
+
 Determined(rule, nus, k) ==
+    Separated(rule, nus, k) /\
     IF rule = 8
     THEN LET T == TopSet(nus, (k + 1) \div 2) Bt == BotSet(nus, k \div 2) IN
          Cardinality(T) = (k + 1) \div 2 /\ Cardinality(Bt) = k \div 2 /\ T \cap Bt = {}
@@ -81,6 +100,13 @@ CWantedSet(mode, rule, re2, im2, sig2, k) ==
     {i \in DOMAIN re2 : Cardinality({j \in DOMAIN re2 : CPrefers(mode, rule, re2, im2, sig2, j, i)}) < k}
 \* determined iff exactly k indices qualify (a conjugate pair has equal keys under every rule, so a pair straddling the
 \* boundary makes the case undetermined and it is skipped)
-CDetermined(mode, rule, re2, im2, sig2, k) == Cardinality(CWantedSet(mode, rule, re2, im2, sig2, k)) = k
+CSeparated(mode, rule, re2, im2, sig2, k) ==
+    LET S == CWantedSet(mode, rule, re2, im2, sig2, k)
+        kf(i) == Fix(CKey(mode, rule, re2[i], im2[i], sig2))
+        kin == {kf(i) : i \in S}
+        kout == {kf(i) : i \in (DOMAIN re2) \ S}
+    IN SeparatedSets(kin, kout, kin \cup kout)
+CDetermined(mode, rule, re2, im2, sig2, k) ==
+    Cardinality(CWantedSet(mode, rule, re2, im2, sig2, k)) = k /\ CSeparated(mode, rule, re2, im2, sig2, k)
 CIsWanted(mode, rule, re2, im2, sig2, S, k) == S = CWantedSet(mode, rule, re2, im2, sig2, k)
 =============================================================================
